@@ -333,6 +333,25 @@ def count_shapes(cls, max_dev, cap=10**6, **opts):
 
 # ---------------------------------------------------------------------------------------
 MAX_CONCRETE_LEN = 1 << 22
+FILL_CLASS = {}  # payload root id -> representative id (payloads the model makes equal get equal content)
+
+
+def set_payload_classes(c, model):
+    """make concretise() give equal content to payloads the model declares equal"""
+    FILL_CLASS.clear()
+    parent = {}
+
+    def find(x):
+        while parent.get(x, x) != x:
+            x = parent[x]
+        return x
+
+    for (i, j), v in (c.notes.get("blob_eq") or {}).items():
+        if z3.is_true(model.eval(v, model_completion=True)):
+            parent[find(j)] = find(i)
+    for x in list(parent):
+        FILL_CLASS[x] = find(x)
+    return FILL_CLASS
 
 
 class TooLarge(Exception):
@@ -361,7 +380,8 @@ def concretise(x, model):
                 n = concretise(it.length, model) if type(it.length) is SymInt else it.length
                 if n > MAX_CONCRETE_LEN:
                     raise TooLarge(n)
-                fill = (0x61 + (it.root.id % 26)) if it.kind == "str" else (0x41 + (it.root.id % 26))
+                rid = FILL_CLASS.get(it.root.id, it.root.id)
+                fill = (0x61 + (rid % 26)) if it.kind == "str" else (0x41 + (rid % 26))
                 out.extend(bytes([fill]) * n)
             elif type(it) is SymInt:
                 out.append(model.eval(it.e, model_completion=True).as_long() & 0xFF)
